@@ -403,6 +403,9 @@ where
     let mut guard = shard.map.write_async().await;
 
     if let Some(entry_arc) = guard.get_mut(key) {
+      if entry_arc.is_expired(self.shared.time_to_idle) {
+        return ComputeResult::NotFound; // expired, not yet collected
+      }
       if let Some(entry) = Arc::get_mut(entry_arc) {
         if let Some(value) = Arc::get_mut(&mut entry.value) {
           let user_value = f(value);
